@@ -307,6 +307,8 @@ static void pv (sb_t * o, svalue_t * sv, int depth)
       {
         uint64_t bits;
         memcpy (&bits, &sv->u.real, 8);
+        if (sv->u.real != sv->u.real)
+          bits = 0x7ff8000000000000ULL;	/* every NaN prints alike: sign and payload of a computed NaN are the FPU's business */
         snprintf (tmp, sizeof tmp, "f%016llx", (unsigned long long) bits);
         sb_puts (o, tmp);
         break;
